@@ -13,6 +13,8 @@ import os
 import numpy as np
 
 from vf import core
+from vf import callforms
+from vf import errorpaths
 from vf import solverlib as sl
 
 PROPERTY = "C10"
@@ -180,18 +182,35 @@ def case_drivers(case):
     from bldfm.config_parser import parse_config_dict
 
     cfg = parse_config_dict({
-        "domain": {"nx": 6, "ny": 4, "xmax": 60.0, "ymax": 60.0, "nz": 4, "modes": [6, 4], "halo": 20.0, "output_levels": case["levels"]},
+        "domain": {"nx": 6, "ny": 4, "xmax": 60.0, "ymax": 60.0, "nz": 4, "modes": [6, 4], "halo": 20.0, "output_levels": ([0] if case.get("late") else case["levels"])},
         "towers": [{"name": "p", "lat": 0.0, "lon": 0.0, "z_m": 5.0}, {"name": "q", "lat": 0.0, "lon": 0.0, "z_m": 8.0}],
         "met": {"ustar": [0.25, 0.45, 0.6], "mol": [-30.0, 200.0, -400.0], "wind_speed": 3.0, "wind_dir": [30.0, 120.0, 250.0]},
         "solver": {"footprint": case["footprint"], "precision": "double"},
     })
     for t, xy in zip(cfg.towers, ((20.0, 15.0), (40.0, 45.0))):
         t.x, t.y = xy
+    if case.get("late"):
+        # the output request is changed on the live configuration object AFTER it was built (one object, several requests)
+        cfg.domain.output_levels = list(case["levels"])
     v = []
     n = 0
     with warnings.catch_warnings():
         warnings.simplefilter("ignore")
         ref = {t.name: [itf.run_bldfm_single(cfg, t, met_index=i) for i in range(3)] for t in cfg.towers}
+        # the single run itself against the documented pipeline: slice k sits at node levels[k] of THAT step's column
+        from bldfm.pbl_model import vertical_profiles
+        from bldfm.utils import compute_wind_fields
+
+        for t in cfg.towers:
+            for i in range(3):
+                m = cfg.met.get_step(i)
+                zcol = np.asarray(vertical_profiles(4, t.z_m, compute_wind_fields(m["wind_speed"], m["wind_dir"]), ustar=m["ustar"], mol=m["mol"])[0])
+                Z = np.asarray(ref[t.name][i]["grid"][2])
+                hs = [float(np.unique(zz)[0]) if np.unique(zz).size == 1 else None for zz in (Z if Z.ndim == 3 else Z[None])]
+                if hs != [float(zcol[l]) for l in case["levels"]]:
+                    v.append({"sub": "driver-heights", "sig": "driver-heights/single%s" % ("/late-request" if case.get("late") else ""), "msg": "single run, tower %s, step %d, output_levels %r%s: slices at heights %s, the column has %s there"
+                              % (t.name, i, case["levels"], " (set after construction)" if case.get("late") else "", hs, [round(float(zcol[l]), 6) for l in case["levels"]])})
+                    break
         runs = {"multitower": itf.run_bldfm_multitower(cfg)}
         for strat in ("towers", "time", "both"):
             runs["parallel-" + strat] = itf.run_bldfm_parallel(cfg, max_workers=2, parallel_over=strat)
@@ -214,7 +233,10 @@ def run(ctx):
         "x {dispersion, footprint} x {numeric, analytic} x {double, single (quick: only for 3-level and 17-node selections)}; each in list and ndarray form "
         "(scalar and numpy-int forms for single levels); distinct = distinct (selection, mode) tuples; all non-trivial; evaluations counts solver executions"
     )
+    callforms.run_solver_forms(ctx)
+    errorpaths.run(ctx, case_levels, [c for c in cases(ctx.tier) if len(c['levels']) == 3 and c['prec'] == 'double' and 'cell' not in c and 'zscale' not in c][:4])
+    ctx.run_cases(errorpaths.case_blocked_pyfftw, [{"blocked": "pyfftw"}], sub="pyfftw cannot be imported: refuse or be right", chunksize=1)
     res = ctx.run_cases(case_levels, cases(ctx.tier), sub="levels")
     ctx.run_cases(case_cached, cache_cases(ctx.tier), sub="levels-through-cache")
-    ctx.run_cases(case_drivers, [{"levels": lv, "footprint": fp} for lv in ([1, 3], [4, 0, 2], [0]) for fp in (True, False)], sub="levels-through-drivers", chunksize=1)
+    ctx.run_cases(case_drivers, [{"levels": lv, "footprint": fp, "late": late} for lv in ([1, 3], [4, 0, 2], [0]) for fp in (True, False) for late in (False, True) if not (late and lv == [0])], sub="levels-through-drivers", chunksize=1)
     ctx.cov["unsorted_selections_cases"] = int(sum(1 for r in res if r.get("obs", {}).get("unsorted")))
